@@ -47,7 +47,7 @@ BOUNDS = {
     # L: max array length; T: max total number of cells (array elements + object entries) over all reachable
     # containers; D: max nesting depth of containers below a pool variable
     'quick': {'L': 2, 'T': 3, 'D': 2},
-    'thorough': {'L': 3, 'T': 5, 'D': 2},
+    'thorough': {'L': 3, 'T': 4, 'D': 2},
 }
 
 PRELUDE = '''\
